@@ -1190,7 +1190,7 @@ class C19(PropBase):
                 else:
                     f["git"] = {"repo": None, "repository": None, "ref": "main", "dir": "txns", "suffix": "txn"}
                 out.append(self.mk("file-invalid:" + name, f, c))
-            # the shadowed file value must not matter (F191) – and the other shadowed values neither
+            # the shadowed file value must not matter (F23) – and the other shadowed values neither
             f = base_file()
             f["commodity"] = "SEK"
             f["fs"]["suffix"] = "jrnl"
@@ -1439,7 +1439,7 @@ class C19(PropBase):
         return ["Env: the working directory is absolute; reading the price file \"\" fails (hypotheses hcwd/hdb of override_equiv)",
                 "override_equiv is stated for option sets clap accepts and configuration files Config::from accepts; "
                 "for the others `contradictions` shows the run is rejected",
-                "the model is the tree with fixes F15, F191, F192, F193 applied (fixes/*.diff)"]
+                "the model is the tree with fixes F15, F23, F24, F25 applied (fixes/*.diff)"]
 
 
 PROP = C19()
